@@ -140,15 +140,22 @@ ControlFails(r, ep, j, X, pwmF, dt) ==
 (* ---- C16: the stop condition ---- *)
 StopOf(r) == Tr.stops[r.stop]
 SensorValue(s, X) == CASE s.sensor = "enc" -> X.el[s.el + 1].pos [] s.sensor = "tach" -> X.el[s.el + 1].spd [] s.sensor = "amp" -> X.cur
-StopClass(v, thr) == IF REq(v, thr) THEN "same"
+\* (C05: a reading and a threshold expressed in DIFFERENT units that denote the same magnitude up to rounding compare equal;
+\* in one and the same unit the comparison is exact.  cross = the trace says the two units differ)
+StopClassX(v, thr, cross) ==
+                     IF REq(v, thr) THEN "same"
+                     ELSE IF cross /\ RLe(RAbs(RSub(v, thr)), RMul(CmpRelSame, RMax(RAbs(v), RAbs(thr)))) THEN "same"
                      ELSE IF RLe(RAbs(RSub(v, thr)), RMul(BandOf, RMax(RAbs(v), RAbs(thr)))) THEN "band"
                      ELSE IF RLt(v, thr) THEN "less" ELSE "greater"
+StopClass(v, thr) == StopClassX(v, thr, FALSE)
 StopVerdict(s, cls) == CmpExpected(cls)[s.op]
 SensEv(r, j) == { e \in { r.sensor[x] : x \in 1..Len(r.sensor) } : e.at = j }
 StopFails(r, X, j) ==
   IF r.stop = 0 THEN {}
   ELSE IF j = 1 /\ Fresh(r) THEN Failing({ <<"StopNotCheckedAtInitialInstant", SensEv(r, j) = {}>> })
-  ELSE LET s == StopOf(r)  v == SensorValue(s, X)  cls == StopClass(v, r.thr)  se == SensEv(r, j) IN
+  ELSE LET s == StopOf(r)  v == SensorValue(s, X)  se == SensEv(r, j)
+           cross == "thr_unit" \in DOMAIN r /\ se # {} /\ \A e \in se : "unit" \in DOMAIN e /\ e.unit # r.thr_unit
+           cls == StopClassX(v, r.thr, cross) IN
        Failing({ <<"StopCheckedOncePerInstant", Cardinality(se) = 1>>,
                  <<"StopReadsRecordedValue", \A e \in se : RIsNum(e.ret) /\ REq(e.ret, v)>> })
        \cup (IF cls = "band" THEN {}
@@ -252,7 +259,11 @@ RunEndFails(r, ep) ==
     <<"RectOneSamplePerInstant", r.outcome = "ok" => LensOK(r, r.last)>>,
     <<"RectAdvertisedIsRecorded", AdvOK>>,
     <<"LiveEqualsLastSample", r.outcome = "ok" => LiveOK(r, ep)>>,
-    <<"RectKinds", ep.kinds_ok>> })
+    <<"RectKinds", ep.kinds_ok>>,
+    \* C17's consequence, observed: snapshots at the last, the first and between the last two instants, and an export, after
+    \* every run that returned (the entries are the names of the exceptions raised, "" = none)
+    <<"RectSnapshotNeverFails", ("snap" \in DOMAIN r /\ r.outcome = "ok") => \A i \in 1..Len(r.snap) : r.snap[i] = "">>,
+    <<"RectExportNeverFails", ("export" \in DOMAIN r /\ r.outcome = "ok") => r.export = "">> })
 
 (* ---- reset ---- *)
 ResetFails(r) ==
